@@ -225,7 +225,7 @@ struct Program {
             fail("C08", "worker-count", "start", "getThreadCount() = " + std::to_string(tc) + " after start() with maximum " + std::to_string(maxThreads));
         if (!pool->isRunning()) fail("C08", "not-running-after-start", "start", "isRunning() is false after start()");
         int act = pool->getActiveThreadCount();
-        if (act > tc) fail("C08", "worker-count", "start", "getActiveThreadCount() > getThreadCount()");
+        if (act > tc || act < 0) fail("C08", "worker-count", "start", "getActiveThreadCount() = " + std::to_string(act) + " with getThreadCount() = " + std::to_string(tc));
         uint64_t created = spy::counters().creates.load() - createsAtEpochStart;
         if (!expiring && (int) created > maxThreads)
             fail("C08", "worker-count", "start", std::to_string(created) + " worker threads were created in one epoch with maximum " + std::to_string(maxThreads));
@@ -307,6 +307,7 @@ struct Program {
         // post-conditions
         if (pool->getThreadCount() != 0) fail("C08", "workers-after-stop", "stop", "getThreadCount() = " + std::to_string(pool->getThreadCount()) + " after stop() returned");
         if (pool->isRunning()) fail("C08", "running-after-stop", "stop", "isRunning() is true after stop()");
+        if (pool->getActiveThreadCount() != 0) fail("C08", "workers-after-stop", "stop", "getActiveThreadCount() = " + std::to_string(pool->getActiveThreadCount()) + " after stop() returned");
         if (gRunningNow.load() != 0) fail("C08", "task-running-after-stop", "stop", std::to_string(gRunningNow.load()) + " task(s) are running after stop() returned");
         for (int i = 0; i < nTasks && !gCaseFailed; ++i) {
             Rec &r = gRecs[i];
